@@ -10,26 +10,37 @@ PROP = {'streams': [('c14', 2500, 120000)],
          'concrete evaluator, reauthorize vs concrete vs the policies() view; views compared id by id; query_resource / query_principal vs brute '
          'force on the original and the last completion; query_action vs every applicable action on every completion; non-trivial = something '
          'erased and at least one residual-class policy; distinct by policies + partial request + partial store',
- 'theorems': ['tpe_table_sound', 'views_agree', 'policy_set_presents_originals', 'views_agree_full_fails', 'interpret_sound_partial',
-              'query_exact', 'query_action_sound'],
+ 'theorems': ['tpe_table_sound', 'views_agree', 'policy_set_presents_originals', 'views_agree_full_fails', 'interpret_sound',
+              'interpret_sound_outcomes', 'interpret_keeps_typeSafe', 'can_error_analysis_sound', 'tpe_decision_sound',
+              'interpret_sound_partial', 'opBool_all_unsatisfiable', 'query_exact', 'query_action_sound', 'query_resource_exact',
+              'query_principal_exact'],
  'assumptions': ['the typed condition TPE starts from (output of the Rust typechecker for the request environment) is an input of the model '
                  '(trusted base: the typechecker, tied by C03); the harness recomputes it with Typechecker::typecheck_by_single_request_env',
                  'error classes are not compared between residual evaluation and concrete evaluation (the property says "erroring")',
                  'consistency of a completion is Rust\'s own check_consistency (reauthorize must accept it); known parts of partial inputs are '
                  'compared as canonical model values',
                  'schema validation inside reauthorize and the stack-depth guard of interpret are not modelled',
-                 'interpret_sound_partial is proved over Residual.eval (a Concrete residual evaluates to its value); the passage through '
-                 'Value -> Expr of the real reauthorization is covered by the differential run (tpe-re lines) only']}
+                 'interpret_sound (all arms of interpret, every residual) assumes TypeSafe of the INPUT residual on the completion: no node '
+                 'raises a type error (operand kinds fit the operators; guarded by short-circuiting) - a semantic consequence of validation '
+                 '(C03) that is NOT derived from the Lean typechecker model (the typed expression is an input of the TPE model)',
+                 'tpe_decision_sound additionally assumes TypedAgrees: the typed condition evaluates like the policy condition',
+                 'interpret soundness is proved over Residual.eval (a Concrete residual evaluates to its value; ofExpr_eval ties it to '
+                 'evaluate on the typed expression); the passage through Value -> Expr of the real reauthorization is covered by the '
+                 'differential run (tpe-re lines) only']}
 
 TEXT = ('Lean theorems over the mirror of tpe::Evaluator::interpret (all arms: unknown principal/resource/context, && / || with the '
  'can_error_assuming_well_formed guard, if, is, like, the binary operators incl. `in` with unknown ancestors and entity sets, getTag/hasTag '
  'with unknown tags, ./has with unknown attributes, unary, extension calls, sets, records), Residual, tpe::Response (decision table = the C13 '
  'table, buckets and views as projections of one map, policy_set/reauthorize as implemented) and the permission queries: tpe_table_sound '
  '(full), views_agree (full for policies/get_policy/residual_policies/buckets) with policy_set_presents_originals + views_agree_full_fails '
- '(the policy_set view of this snapshot presents the originals: known finding), interpret_sound_partial (fragment, by induction, under the '
- 'explicit ErrFreeSound hypothesis about the can-error analysis), query_exact / query_action_sound (given TPE soundness); tied to the code by a '
+ '(the policy_set view of this snapshot presents the originals: known finding), interpret_sound (the FULL statement: every residual, every '
+ 'arm of interpret, on every completion, given only that the input residual is type-safe there - TypeSafe; by induction, simultaneously with '
+ 'interpret_keeps_typeSafe), can_error_analysis_sound (the mirrored can_error_assuming_well_formed is sound on type-safe residuals: the former '
+ 'hypotheses ErrFreeSound / OpBool are discharged), tpe_decision_sound (interpret_sound + table: a definite TPE decision is the concrete '
+ 'decision on every completion), interpret_sound_partial (older Frag formulation, now all constructors), query_exact / query_action_sound '
+ '(given TPE soundness = tpe_decision_sound); tied to the code by a '
  'differential run (decision + id->class, and what residuals evaluate to on completions), plus the statement itself evaluated on the '
  'implementation for sampled consistent completions, all views and the three queries.',
- 'proof over a hand-written model; interpret soundness is proved on a fragment (full statement kept as a Prop) under an explicit hypothesis on '
- 'the can-error analysis; correspondence sampled (harness/src/c14.rs); residual shapes never compared; one genuine defect recorded '
+ 'proof over a hand-written model; interpret soundness is proved for all arms under the semantic hypothesis TypeSafe (no type error at any '
+ 'node of the typed condition on the completion), which is not derived from the typechecker model; correspondence sampled (harness/src/c14.rs); residual shapes never compared; one genuine defect recorded '
  '(policy_set() returns the original policies)')
